@@ -46,6 +46,13 @@ S2Val(m, a, b) == VStruct(<<Leaf(tInt, m), S1Val(a, b), Leaf(tInt, 2)>>)
 S3 == TStruct(<<Fld("Z", <<90>>, tInt), FldO("I", <<73>>, <<"inline">>, tIface)>>)
 S3Val(x) == VStruct(<<Leaf(tInt, 1), x>>)
 
+\* a map of structs whose interface field holds a map of the same type: the (cached) map folder is re-entered
+\* while an element is being folded, and a field follows the nested map
+TX == TStruct(<<Fld("I", <<73>>, tIface), Fld("After", <<65, 102, 116, 101, 114>>, tStr)>>)
+TXVal == VMap(<<KV(<<111>>, VStruct(<<VIface(TMap(TX), VMap(<<KV(<<105>>, VStruct(<<VNil("iface"), Leaf(tStr, 1)>>)), KV(<<106>>, VStruct(<<VNil("iface"), Leaf(tStr, 1)>>))>>)),
+                                     Leaf(tStr, 1)>>)),
+            KV(<<112>>, VStruct(<<VNil("iface"), Leaf(tStr, 1)>>))>>)
+
 \* ---- catalogue: field type with its value classes ----------------------------
 ScalarT == {TScalar(k) : k \in {"string", "int", "int8", "uint64", "float32", "float64", "bool", "uint8", "int64"}}
 Cat ==
@@ -82,6 +89,7 @@ Cat ==
                                VIface(TSlice(tIface), VSlice(<<VIface(TNamed("FoldSl"), VSlice(<<Leaf(tStr, 1)>>)), VIface(TPtr(TNamed("FoldT")), VNil("ptr"))>>)),
                                VIface(TMap(tIface), VMap(<<KV(<<107>>, VIface(TNamed("FoldMp"), VMap(<<>>))), KV(<<108>>, VIface(TPtr(TNamed("FoldObj")), VNil("ptr")))>>)),
                                VIface(TPtr(S3), VPtr(S3Val(VIface(S1, S1Val(1, 1)))))}}
+  \cup {<<TMap(TX), TXVal>>, <<TSlice(TMap(TX)), VSlice(<<TXVal>>)>>}
   \cup {<<TNamed("FoldSl"), x>> : x \in {VNil("slice"), VSlice(<<Leaf(tStr, 1), Leaf(tStr, 1)>>)}}
   \cup {<<TNamed("FoldMp"), x>> : x \in {VNil("map"), VMap(<<KV(<<107>>, Leaf(tInt, 1))>>)}}
   \cup {<<TNamed("KMap"), x>> : x \in {VNil("map"), VMap(<<KV(<<107>>, VStruct(<<Leaf(tInt, 1)>>)), KV(<<108>>, VStruct(<<Leaf(tInt, 0)>>))>>)}}
@@ -118,6 +126,7 @@ Nest3 ==
 Tags ==
   {[tname |-> "", tb |-> <<>>, opts |-> <<>>],
    [tname |-> "nm", tb |-> <<110, 109>>, opts |-> <<>>],
+   [tname |-> "uID", tb |-> <<117, 73, 68>>, opts |-> <<>>],              \* a tag name with capitals: used verbatim by both directions
    [tname |-> "", tb |-> <<>>, opts |-> <<"dash">>],
    [tname |-> "", tb |-> <<>>, opts |-> <<"omit">>],
    [tname |-> "", tb |-> <<>>, opts |-> <<"omitempty">>],
